@@ -154,7 +154,7 @@ PROPS = {
         "modelled": ["ParallelStateView::db_basic (miss, database fetch, insert-if-absent) against commits of the account as Model/AccountFill.lean", "ParallelStateView::db_storage (hit / status read + fetch / guarded insert-if-absent with status re-check) and the order status-update -> storage.remove -> update_storage_slot of ParallelCacheState::apply_account_state as Model/Cache.lean, per (address, slot)", "the account/storage lifecycle (destroy, create, update) as in Model/Repr.lean (commitL)", "the account-status machine, sequentially: CacheAccountInfo::{selfdestruct, newly_created, touch_empty_eip161, change, account_info_change}, the case split and slot-map handling of ParallelCacheState::apply_account_state, db_basic / db_storage / load_mut_cache_account, increment_balance_transitions and ParallelState::drain_balances as the machine G of Model/AcctState.lean; revm's CacheAccount, CacheState::apply_account_state, State::{load_cache_account, storage} and the default DatabaseCommitExt::{increment_balances, drain_balances} as the machine S; AccountStatus::{on_created, on_changed, on_selfdestructed, on_touched_empty_post_eip161, is_storage_known} transcribed for both"],
         "assumptions": ["DashMap shard guards give mutual exclusion between the guarded insert and storage.remove (one critical section = one model action)", "an account without nonce and code has no storage in the backing store (revm's own assumption when it marks such an account in-memory)", "the bundle builder (bundle.rs: transitions -> BundleState, reverts, retention modes) is NOT modelled in Lean: it is decided by the history differential against revm's State only", "acct_machine_refines_revm is about histories on which grevm does not panic (a committed account is cached: execution loads every account it commits) and with non-zero increments (documented precondition; zero_increment_differs shows it is needed); the storage maps of a TransitionAccount (original values) are handed through by both implementations and not modelled"],
         "partial": ["bundle/revert construction from the transitions: differential only (no theorem); the status machine and the per-operation transitions are a theorem (acct_machine_refines_revm) for sequential histories, its composition with the racing cache fills (cache_coherent, account_fill_coherent) is not one theorem", "account fills are modelled abstractly (Model/AccountFill.lean: publish = insert-if-absent of the immutable database value, commit = overwrite) and tied by the account cases of cache-race (final state vs revm State, returned values vs committed prefixes), not by trace replay; code cache fills (insert-if-absent of immutable bytecode keyed by its hash) are not modelled"],
-        "explanation": "Theorems cache_coherent / cache_entry_current (for any number of readers, any history of destroy / create / update commits and any interleaving, whenever no commit is in progress the cache serves exactly what revm's State serves; nothing a reader left behind is stale) and f1_original_order_violates (the original order of finding F1 is refuted in the model); account_fill_coherent (any interleaving of account-filling reads with commits leaves the committed account in the cache) and blind_publish_violates. acct_machine_refines_revm / step_refines / reads_equal_after_any_history: grevm's two-map account cache (info + status, slots apart, slots cacheable before the account is loaded) refines revm's CacheAccount for EVERY history of loads, slot reads, committed selfdestructs / creations / empty touches / changes, increments and drains: same TransitionAccount (info, status, previous info, previous status, storage-was-destroyed), same infos, same slot values, same drained amounts; loaded_history_refines_revm (a history that starts by loading the account never makes grevm panic and is answered identically by revm), storage_known_is_monotone, destroyed_account_serves_zero, zero_increment_differs. Findings F1 and F6 repaired (known_findings.json).",
+        "explanation": "Theorems cache_coherent / cache_entry_current (for any number of readers, any history of destroy / create / update commits and any interleaving, whenever no commit is in progress the cache serves exactly what revm's State serves; nothing a reader left behind is stale) and f1_original_order_violates (the original order of finding F1 is refuted in the model); account_fill_coherent (any interleaving of account-filling reads with commits leaves the committed account in the cache) and blind_publish_violates. acct_machine_refines_revm / step_refines / reads_equal_after_any_history: grevm's two-map account cache (info + status, slots apart, slots cacheable before the account is loaded) refines revm's CacheAccount for EVERY history of loads, slot reads, committed selfdestructs / creations / empty touches / changes, increments and drains: same TransitionAccount (info, status, previous info, previous status, storage-was-destroyed), same infos, same slot values, same drained amounts; loaded_history_refines_revm (a history that starts by loading the account never makes grevm panic and is answered identically by revm), storage_known_is_monotone, destroyed_account_serves_zero, transition_is_exact_delta (a reported transition records exactly the cache entry before and after the operation), zero_increment_differs. Findings F1 and F6 repaired (known_findings.json).",
     },
     "C11": {
         "lean_modules": ["Props.C11"],
